@@ -31,6 +31,7 @@ PACKS = {
     "lazy": dict(lazy=True),
     "trim": dict(trim=True),
     "trimsym": dict(trim=True, sym=True),
+    "trimonly": dict(trimonly=True),
     "rename": dict(rename=True),
     "mono": dict(mono=True),
     "fac2": dict(fac2=True),
@@ -39,8 +40,9 @@ PACKS = {
     "onewaysym": dict(oneway=True, inf=True, sym=True),
 }
 # packs whose point is a statistics mechanism always run with statistics; the cycle symmetry needs three letters
-PACK_STATS = {"trim": "s2", "trimsym": "s2", "rename": "s2", "mono": "s1"}
-PACK_EXTRA_PATTERNS = {"trim": [("ba",), ("aa", "ab"), ("ab",)], "trimsym": [("ba",)], "mono": [("ba",)]}
+PACK_STATS = {"trim": "s2", "trimsym": "s2", "rename": "s2", "mono": "s1", "trimonly": "s2"}
+PACK_EXTRA_PATTERNS = {"trim": [("ba",), ("aa", "ab"), ("ab",)], "trimsym": [("ba",)], "mono": [("ba",)],
+                       "trimonly": [("aa", "ab"), ("ba",), ("ab", "bb")]}
 STATS = {
     "s0": (),
     "s1": (("k1", "a"),),
@@ -91,7 +93,7 @@ def configs(tier: str, seed: int, flavours=("default", "forget", "forest"), pack
     if max_n:
         # configurations that must not be sampled away: the packs that exist for one specific mechanism
         special = [c for c in out if c[4] in ("lazy", "needrev", "oneway", "onewaysym", "pfactory", "split", "trim", "trimsym", "rename",
-                                              "mono", "fac2", "symcycle")]
+                                              "mono", "fac2", "symcycle", "trimonly")]
         keep = []
         seen = set()
         for c in special:
